@@ -415,8 +415,9 @@ fn cert_hash(spec_hex: &str) -> String {
         })
     };
     let mut unsupported = false;
-    let mut apply = |c: &mut Certificate, v: &serde_json::Value, second: bool| {
-        let f = field.as_str();
+    let signer_index = |f: &str| -> usize { f.split('[').nth(1).and_then(|x| x.split(']').next()).and_then(|x| x.parse().ok()).unwrap_or(0) };
+    let mut apply = |c: &mut Certificate, f: &str, v: &serde_json::Value, second: bool, strict: bool| {
+        let before = unsupported;
         let sv = || unhex(v.as_str().unwrap_or(""));
         if f == "previous_hash" { c.previous_hash = sv(); }
         else if f == "signed_message" { c.signed_message = sv(); }
@@ -429,10 +430,17 @@ fn cert_hash(spec_hex: &str) -> String {
         else if f == "metadata.initiated_at" { match time(v) { Some(t) => c.metadata.initiated_at = t, None => unsupported = true } }
         else if f == "metadata.sealed_at" { match time(v) { Some(t) => c.metadata.sealed_at = t, None => unsupported = true } }
         else if f.starts_with("metadata.signers") {
-            if c.metadata.signers.is_empty() { c.metadata.signers.push(StakeDistributionParty { party_id: "p".to_string(), stake: 1 }); }
-            if f.ends_with("party_id") { c.metadata.signers[0].party_id = sv(); }
-            else if f.ends_with("stake") { c.metadata.signers[0].stake = num(v) as u64; }
-            else if f.ends_with("len") { if second { c.metadata.signers.push(StakeDistributionParty { party_id: "extra".to_string(), stake: 7 }); } }
+            let j = signer_index(f);
+            while c.metadata.signers.len() <= j { c.metadata.signers.push(StakeDistributionParty { party_id: format!("p{}", c.metadata.signers.len()), stake: 1 }); }
+            if f.ends_with("party_id") { c.metadata.signers[j].party_id = sv(); }
+            else if f.ends_with("stake") { c.metadata.signers[j].stake = num(v) as u64; }
+            else if f.ends_with("len") {
+                if second {
+                    let extra = &spec["extra_signer"];
+                    let (pid, st) = if extra.is_array() { (unhex(extra[0].as_str().unwrap_or("")), extra[1].as_str().and_then(|x| x.parse::<u64>().ok()).unwrap_or(7)) } else { ("extra".to_string(), 7) };
+                    c.metadata.signers.push(StakeDistributionParty { party_id: pid, stake: st });
+                }
+            }
             else { unsupported = true; }
         }
         else if let Some(k) = f.strip_prefix("protocol_message.part.") {
@@ -455,11 +463,23 @@ fn cert_hash(spec_hex: &str) -> String {
         else if f == "ancillary_prover_data.is_some" { if second { c.ancillary_prover_data = None; } else if c.ancillary_prover_data.is_none() { unsupported = true; } }
         else if f == "ancillary_verifier_data.is_some" { if second { c.ancillary_verifier_data = None; } else if c.ancillary_verifier_data.is_none() { unsupported = true; } }
         else { unsupported = true; }
+        if !strict { unsupported = before; }
     };
     let mut ca = base.clone();
     let mut cb = base.clone();
-    apply(&mut ca, &spec["a"], false);
-    apply(&mut cb, &spec["b"], true);
+    // the metadata of the base fixture keeps only as many signers as the model has
+    if let Some(common) = spec["common"].as_array() {
+        let nsig = common.iter().filter(|kv| kv[0].as_str().map(|f| f.ends_with("party_id")).unwrap_or(false)).count();
+        if nsig > 0 { ca.metadata.signers.truncate(nsig); cb.metadata.signers.truncate(nsig); }
+        for kv in common.iter() {
+            let f = kv[0].as_str().unwrap_or("").to_string();
+            apply(&mut ca, &f, &kv[1], false, false);
+            apply(&mut cb, &f, &kv[1], false, false);
+        }
+    }
+    let fname = field.clone();
+    apply(&mut ca, &fname, &spec["a"], false, true);
+    apply(&mut cb, &fname, &spec["b"], true, true);
     if unsupported { return format!("unsupported (field {})", field); }
     match (ca.try_compute_hash(), cb.try_compute_hash()) {
         (Ok(x), Ok(y)) => if x == y { "equal".to_string() } else { "different".to_string() },
